@@ -31,7 +31,7 @@ EV_OWNER = {"add": "C03", "c.match": "C03",
             "c.answer": "C02", "c.resp": "C02", "a.lookup": "C02",
             "w.timeout": "C04", "w.locked": "C04", "w.claimed": "C04", "c.timeout": "C04", "c.precleanup": "C04",
             "c.cleanup": "C04", "a.send": "C04", "a.sent": "C04", "a.dropped": "C04", "a.resp": "C04", "tick": "C04",
-            "end": "C04", "reset": "C04"}
+            "end": "C04", "reset": "C04", "metrics": "C19"}
 
 
 def q(xs):
@@ -122,7 +122,9 @@ def to_scenario(sid, steps, rng, mode="replay", fresh=False):
             elif it[0] == "ProxyRegister":
                 addr[it[1]] = "192.0.2.%d:%d" % (rng.randint(1, 6), rng.randint(1024, 65000))
                 ptype[it[1]] = rng.choice(PTYPES)
-    return {"id": sid, "mode": mode, "steps": steps, "via": via, "addr": addr, "ptype": ptype, "fresh": fresh}
+    norelay = {p: True for p in addr if rng.random() < 0.25}
+    return {"id": sid, "mode": mode, "steps": steps, "via": via, "addr": addr, "ptype": ptype, "fresh": fresh,
+            "norelayext": norelay, "rollover": rng.random() < 0.04}
 
 
 def generate_replays(chk, counts, seed):
@@ -175,6 +177,7 @@ def generate_herds(n, seed, first_id):
     return scen
 
 
+ORDER = []     # scenario ids in execution order (shard after shard) of the last run_rig call
 CRASHES = []   # (panic message, output tail, shard input file) of rig processes killed by a panic in broker code
 
 
@@ -209,6 +212,9 @@ def run_rig(chk, scenarios, race=False, shards=None, tag="rig"):
         jobs.append(job)
     by_sc = {}
     outputs = []
+    ORDER.clear()
+    for part in parts:
+        ORDER.extend(s_["id"] for s_ in part)
     for r, outp in vlib.run_parallel(jobs):
         outputs.append(r.out)
         if r.timed_out or r.rc != 0:
@@ -262,14 +268,26 @@ def validate(chk, by_sc, locked=False, max_rounds=12):
     findings (scenario id, kind, detail) where kind is 'reject:<event>' or
     'inv:<Invariant>'.  Scenarios that fail are removed and the rest re-checked."""
     findings = []
-    ids = sorted(by_sc)
+    pos = {sid: n for n, sid in enumerate(ORDER)}
+    ids = sorted(by_sc, key=lambda x: pos.get(x, x))
     accepted = 0
+    resync = False
+    prev = None
     for _ in range(max_rounds):
         if not ids:
             break
         events = []
         for i in ids:
-            events += by_sc[i]
+            evs = [dict(e) for e in by_sc[i]]
+            # counts carried over from a scenario that is not part of this trace are unknown
+            gap = prev is not None and pos.get(i, -1) != pos.get(prev, -2) + 1
+            for e in evs:
+                if e["ev"] == "reset":
+                    e["resync"] = bool((resync or gap) and not e.get("fresh"))
+                    e.setdefault("rollover", False)
+            resync = False
+            prev = i
+            events += evs
         P, C, A = used_names(events)
         cfg = cfg_text(P or ["p1"], C or ["c1"], A or ["a1"], False, False, [0], ALLP, ALLC, ALLF, True,
                        "trace-locked" if locked else "trace")
@@ -298,6 +316,7 @@ def validate(chk, by_sc, locked=False, max_rounds=12):
             raise vlib.Inconclusive("trace validation: unexpected TLC result %s\n%s" % (r.error, r.out[-2000:]))
         accepted += ids.index(bad)
         ids = ids[ids.index(bad) + 1:]
+        resync, prev = True, None
     return findings, accepted
 
 
@@ -310,7 +329,7 @@ def nontrivial(steps):
     return any(x in flat for x in ("WaiterTimerFire", "ClientTimerFire", "Wave")) or flat.count("AnswerLookup") > 1
 
 
-def pipeline(chk, owner, tier, seed, counts=None, herds=None, do_mc=True, mc_only=None):
+def pipeline(chk, owner, tier, seed, counts=None, herds=None, do_mc=True, mc_only=None, shards=None):
     """Run model checking, replays, herds and trace validation; report the
     findings that belong to property `owner` (C02 / C03 / C04)."""
     if do_mc:
@@ -323,7 +342,7 @@ def pipeline(chk, owner, tier, seed, counts=None, herds=None, do_mc=True, mc_onl
     nh = herds if herds is not None else (60 if q_ else 600)
     scen += generate_herds(nh, seed, len(scen) + 1)
     by_id = {s["id"]: s for s in scen}
-    by_sc, _ = run_rig(chk, scen)
+    by_sc, _ = run_rig(chk, scen, shards=shards)
     chk.cov["evaluations"] += len(scen)
     distinct = set()
     for s in scen:
@@ -397,3 +416,50 @@ def replay(chk, owner, path):
     chk.cov["traces_validated_against_impl"] += accepted
     for sid, kind, ev in findings:
         chk.violation("%s/%s" % (owner, kind), "recorded execution is not a behaviour of spec/Broker: %s at %s" % (kind, json.dumps(ev)), {"scenario": sc, "events": evs})
+
+
+def twin_equivalence(chk, prop, via, counts, seed):
+    """The same gated behaviours executed twice: every client poll sent through
+    encoding `via` ("amp" / "legacy") and as a versioned POST.  Replays are
+    deterministic, so every response must be identical; a difference is a
+    violation of the endpoint-equivalence clause of `prop`."""
+    scen = generate_replays(chk, counts, seed)
+    a_runs, b_runs = [], []
+    for s_ in scen:
+        a = json.loads(json.dumps(s_))
+        a["rollover"] = False
+        fps = {}
+        for st in s_["steps"]:
+            if st[0] == "ClientMatch":
+                fps[st[1]] = st[3]
+        a["via"] = {c: (via if (via != "legacy" or fps.get(c) == "default") else "post") for c in s_["via"]}
+        b = json.loads(json.dumps(a))
+        b["id"] = a["id"] + 100000
+        b["via"] = {c: "post" for c in s_["via"]}
+        a_runs.append(a)
+        b_runs.append(b)
+    by_sc, _ = run_rig(chk, a_runs + b_runs)
+
+    def responses(evs):
+        out = {}
+        for e in evs:
+            if e["ev"].endswith(".resp"):
+                out[e.get("c") or e.get("p") or e.get("a")] = {k: v for k, v in e.items() if k not in ("sc", "via")}
+        return out
+    n = 0
+    for a in a_runs:
+        ra, rb = responses(by_sc.get(a["id"], [])), responses(by_sc.get(a["id"] + 100000, []))
+        if not any(v == via for v in a["via"].values()):
+            continue
+        n += 1
+        for name in sorted(set(ra) | set(rb)):
+            if ra.get(name) != rb.get(name):
+                chk.violation("%s/equivalence:%s/%s" % (prop, via, (ra.get(name) or rb.get(name) or {}).get("kind", "?")),
+                              "the same exchange answers differently when client polls use the %s encoding: %s, versioned POST: %s" % (
+                                  via, json.dumps(ra.get(name)), json.dumps(rb.get(name))),
+                              {"scenario": a, "events": by_sc.get(a["id"]), "twin_events": by_sc.get(a["id"] + 100000)})
+                break
+    chk.cov["evaluations"] += 2 * n
+    chk.cov["distinct_nontrivial"] += n
+    chk.note("%s twin runs (%s vs POST): %d behaviours compared" % (prop, via, n))
+    return n
